@@ -26,6 +26,7 @@ type c13Op struct {
 	Hold  bool   `json:"hold,omitempty"`   // keep the result (if a node-set) as a caller-held slice
 	Alt   bool   `json:"alt,omitempty"`    // use the second namespace map (x and y swapped) and the second values of $n, $s
 	BindK bool   `json:"kbound,omitempty"` // additionally bind the prefix k with xsel.WithNS
+	Plain bool   `json:"plain,omitempty"`  // pass the bindings through the With* option functions only (no caller-owned maps)
 	Idx   int    `json:"idx,omitempty"`    // reexec: index of the earlier exec op; subslice/unmarshal: held index
 	I     int    `json:"i,omitempty"`
 	J     int    `json:"j,omitempty"`
@@ -88,6 +89,7 @@ type execRecord struct {
 	node   string
 	alt    bool
 	k      bool
+	plain  bool
 	v, w   int
 	result string
 	err    bool
@@ -176,6 +178,20 @@ func checkC13(c *c13Case) error {
 			n = p.doc.Root
 		}
 		settings := []xsel.ContextApply{apply}
+		if op.Plain {
+			// the library's own maps, filled only through the option functions
+			settings = nil
+			nsm := nsMap
+			if op.Alt {
+				nsm = nsAlt
+			}
+			for _, pf := range []string{"x", "y"} {
+				settings = append(settings, xsel.WithNS(pf, nsm[pf]))
+			}
+			for k, v := range callVars {
+				settings = append(settings, xsel.WithVariableName(k, v))
+			}
+		}
 		if op.BindK {
 			settings = append(settings, xsel.WithNS("k", "urn:x"))
 		}
@@ -215,7 +231,7 @@ func checkC13(c *c13Case) error {
 				return fmt.Errorf("step %d (%s): %s", step, what, snap)
 			}
 			st.Eval(1)
-			records[step] = execRecord{op.Expr, op.Node, op.Alt, op.BindK, op.V, op.W, snap, isErr}
+			records[step] = execRecord{op.Expr, op.Node, op.Alt, op.BindK, op.Plain, op.V, op.W, snap, isErr}
 			// a prefix is bound only for the query it was bound for
 			if strings.Contains(c.Exprs[op.Expr], "k:") && !op.BindK && !isErr && op.Node == "/" {
 				return fmt.Errorf("step %d (%s): the prefix k is not bound for this query (an earlier query bound it) but the query succeeded: %s", step, what, snap)
@@ -243,7 +259,7 @@ func checkC13(c *c13Case) error {
 				continue
 			}
 			what = fmt.Sprintf("re-exec of step %d: %q from %s", op.Idx, c.Exprs[rec.expr], rec.node)
-			snap, _, _ := doExec(c13Op{Expr: rec.expr, Node: rec.node, Alt: rec.alt, BindK: rec.k, V: rec.v, W: rec.w}, exprs[rec.expr])
+			snap, _, _ := doExec(c13Op{Expr: rec.expr, Node: rec.node, Alt: rec.alt, BindK: rec.k, Plain: rec.plain, V: rec.v, W: rec.w}, exprs[rec.expr])
 			st.Eval(1)
 			reexecs++
 			if snap != rec.result {
@@ -301,7 +317,7 @@ func checkC13(c *c13Case) error {
 		if err != nil {
 			return fmt.Errorf("BuildExpr(%q) failed on a repeat: %v", c.Exprs[rec.expr], err)
 		}
-		snap, _, _ := doExec(c13Op{Expr: rec.expr, Node: rec.node, Alt: rec.alt, BindK: rec.k, V: rec.v, W: rec.w}, &g)
+		snap, _, _ := doExec(c13Op{Expr: rec.expr, Node: rec.node, Alt: rec.alt, BindK: rec.k, Plain: rec.plain, V: rec.v, W: rec.w}, &g)
 		st.Eval(1)
 		if snap != rec.result {
 			return fmt.Errorf("a freshly built %q from %s gave a different result than the reused expression at step %d", c.Exprs[rec.expr], rec.node, step)
@@ -343,7 +359,7 @@ func TestC13(t *testing.T) {
 		for i, n := 0, rapid.IntRange(4, 25).Draw(t, "nOps"); i < n; i++ {
 			switch k := rapid.IntRange(0, 9).Draw(t, "op"); {
 			case k <= 4 || nHeld == 0:
-				op := c13Op{Op: "exec", Expr: rapid.IntRange(0, len(c.Exprs)-1).Draw(t, "expr"), V: -1, W: -1, Hold: rapid.Bool().Draw(t, "hold"), Alt: rapid.IntRange(0, 2).Draw(t, "altBindings") == 0, BindK: rapid.IntRange(0, 2).Draw(t, "bindK") == 0}
+				op := c13Op{Op: "exec", Expr: rapid.IntRange(0, len(c.Exprs)-1).Draw(t, "expr"), V: -1, W: -1, Hold: rapid.Bool().Draw(t, "hold"), Alt: rapid.IntRange(0, 2).Draw(t, "altBindings") == 0, BindK: rapid.IntRange(0, 2).Draw(t, "bindK") == 0, Plain: rapid.Bool().Draw(t, "plainOptions")}
 				op.Node = doc.All[rapid.IntRange(0, len(doc.All)-1).Draw(t, "node")].Ref()
 				if rapid.Bool().Draw(t, "fromRoot") {
 					op.Node = "/"
